@@ -749,10 +749,10 @@ func zipCase(scratch string, id int, z zipSpec) (msg string, created bool) {
 
 func zipSpecs(thorough bool) []zipSpec {
 	mods := [][2]string{{"example.com/m", "v1.0.0"}, {"example.com/m/v2", "v2.0.0"}, {"gopkg.in/y.v1", "v1.2.3"}, {"example.com/M", "v2.0.0+incompatible"}}
-	paths := []string{"a", "b/c", "go.mod", "LICENSE", "x y", "é", "sub/go.mod", "sub/x.go", "vendor/p/q.go", "vendor/modules.txt", "A/b", "d/e/f"}
+	paths := []string{"a.tmp", "a", "b/c.tmp/d", "b/c", "go.mod", "LICENSE", "x y", "é", "sub/go.mod", "sub/x.go", "vendor/p/q.go", "vendor/modules.txt", "A/b", "d/e/f"}
 	datas := []string{"", "x", "module example.com/m\n\ngo 1.24\n"}
 	if !thorough {
-		paths = paths[:10]
+		paths = paths[:12]
 	}
 	var out []zipSpec
 	for _, mv := range mods {
